@@ -288,3 +288,31 @@ func (p *Pool) Put(x interface{}) {
 	p.m.Unlock()
 	rel()
 }
+
+// Clear (Go 1.23).
+func (m *Map) Clear() { m.m.Clear(); rel() }
+
+// OnceFunc, OnceValue, OnceValues (Go 1.21), over the simulated Once. Like
+// the originals they re-panic on every call if f panicked.
+func OnceFunc(f func()) func() {
+	var once Once
+	var valid bool
+	var p interface{}
+	g := func() {
+		defer func() {
+			p = recover()
+			if !valid {
+				panic(p)
+			}
+		}()
+		f()
+		f = nil
+		valid = true
+	}
+	return func() {
+		once.Do(g)
+		if !valid {
+			panic(p)
+		}
+	}
+}
